@@ -273,6 +273,9 @@ class PrivFirstModel(LazyModel):
             evs = []
             for g, m, fn in INITS:
                 evs.append(Event("privinit:%s" % g, PRIV_INIT % (m, fn), True, g))
+            for g, m, fn in INITS:
+                if fn == "init":        # init(table, reload=True) is legal as the FIRST init of a table as well
+                    evs.append(Event("privinit-reload:%s" % g, PRIV_INIT.replace("(_P)\n'done'", "(_P, reload=True)\n'done'") % (m, fn), True, g))
             for g, names in GROUPS:
                 n = "get:iso:neutron_activation" if g == "activation" else "get:el:%s" % names[0]
                 evs.append(Event(n, base[n].code, True, g))
@@ -285,9 +288,10 @@ class PrivFirstModel(LazyModel):
 
     def enabled(self, hist, ev):
         # (both conditions are functions of the state: the key lists the groups initialised on table P)
-        if ev.name.startswith("privinit:"):
-            return ev.name not in hist
-        return any(h.startswith("privinit:") for h in hist)     # histories without a private init: main model
+        if ev.name.startswith("privinit"):
+            g = ev.name.split(":", 1)[1]        # with or without reload=True: once per group (the first init of P's group)
+            return "privinit:" + g not in hist and "privinit-reload:" + g not in hist
+        return any(h.startswith("privinit") for h in hist)      # histories without a private init: main model
 
 
 ENV_CODE = "_a.ActivationEnvironment(fluence=1e8, Cd_ratio=70, fast_ratio=50, location='x')"
@@ -695,7 +699,7 @@ def run(ctx):
 def replay(ctx, case, signature=None):
     hist = list(case["history"])
     is_memo = any(n.startswith("memo:") for n in hist + [case.get("event") or ""])
-    is_priv = any(n.startswith("privinit:") for n in hist + [case.get("event") or ""])
+    is_priv = any(n.startswith("privinit") for n in hist + [case.get("event") or ""])
     is_aux = any(n.startswith("aux:") for n in hist + [case.get("event") or ""])
     model = MemoModel() if is_memo else (PrivFirstModel() if is_priv else (AuxFirstModel() if is_aux else LazyModel()))
     can_obs, can_dig = canonical(model)
